@@ -555,6 +555,7 @@ def corr_stage(ctx, cases, observe, to_coq, header, check_fn, oracle=None, show_
     """
     terms = []
     kept = []
+    explained = set()     # indices of cases on which the oracle itself reported a violation (listed or not)
     for case in cases:
         try:
             obs = observe(case)
@@ -573,6 +574,7 @@ def corr_stage(ctx, cases, observe, to_coq, header, check_fn, oracle=None, show_
             if v:
                 what, key = v
                 ctx.violation(what, {"case": case, "observed": obs}, key=key)
+                explained.add(len(terms))
         terms.append(to_coq(case, obs))
         kept.append((case, obs))
     if not terms:
@@ -589,6 +591,10 @@ def corr_stage(ctx, cases, observe, to_coq, header, check_fn, oracle=None, show_
                           {"errors": [e[:1500] for e in errors]}, no_input=True)
         return
     ctx.obligation("%s: model = implementation on %d cases" % (label, len(terms)), not bad)
+    unexplained = [i for i in bad if i not in explained]
+    if bad and not unexplained:
+        ctx.notes.append("%d model/implementation disagreements, all on cases where the oracle reported a property violation" % len(bad))
+    bad = unexplained
     if bad:
         before = len(ctx.violations)
         shown = ""
